@@ -18,6 +18,7 @@ package bpmn
 
 import (
 	"context"
+	"sort"
 	"sync"
 
 	"github.com/olive-io/bpmn/schema"
@@ -26,32 +27,80 @@ import (
 
 type parallelGateway struct {
 	*wiring
-	element               *schema.ParallelGateway
-	mch                   chan imessage
-	reportedIncomingFlows int
-	once                  sync.Once
-	awaitingActions       []chan IAction
-	noOfIncomingFlows     int
+	element           *schema.ParallelGateway
+	mch               chan imessage
+	once              sync.Once
+	noOfIncomingFlows int
+	// waiting holds, per incoming sequence flow (in the order of wiring.incoming),
+	// the tokens that have arrived on it and have not been consumed yet
+	waiting  [][]parallelArrival
+	arrivals int
+}
+
+// parallelArrival is a token waiting at a parallel gateway
+type parallelArrival struct {
+	response chan IAction
+	seq      int
+}
+
+type parallelNextActionMessage struct {
+	nextActionMessage
+	// incoming is the id of the sequence flow the token arrived on
+	incoming string
 }
 
 func newParallelGateway(wr *wiring, element *schema.ParallelGateway) (gw *parallelGateway, err error) {
 	gw = &parallelGateway{
-		wiring:                wr,
-		element:               element,
-		mch:                   make(chan imessage, len(wr.incoming)*2+1),
-		reportedIncomingFlows: 0,
-		awaitingActions:       make([]chan IAction, 0),
-		noOfIncomingFlows:     len(wr.incoming),
+		wiring:            wr,
+		element:           element,
+		mch:               make(chan imessage, len(wr.incoming)*2+1),
+		noOfIncomingFlows: len(wr.incoming),
+		waiting:           make([][]parallelArrival, len(wr.incoming)),
 	}
 
 	return
 }
 
+// slot returns the index of the incoming sequence flow a token arrived on
+func (gw *parallelGateway) slot(incoming string) int {
+	for i := range gw.incoming {
+		if idPtr, present := gw.incoming[i].Id(); present && *idPtr == incoming {
+			return i
+		}
+	}
+	// not one of the declared incoming flows: count the token for the incoming
+	// flow that is shortest of tokens
+	best := 0
+	for i := range gw.waiting {
+		if len(gw.waiting[i]) < len(gw.waiting[best]) {
+			best = i
+		}
+	}
+	return best
+}
+
+// flowWhenReady fires the gateway for as long as a token is waiting on EACH
+// incoming sequence flow: one token per incoming flow is consumed per
+// activation (several tokens that arrived on the same incoming flow do not
+// stand in for the flows nothing has arrived on yet)
 func (gw *parallelGateway) flowWhenReady() {
-	if gw.reportedIncomingFlows == gw.noOfIncomingFlows {
-		gw.reportedIncomingFlows = 0
-		awaitingActions := gw.awaitingActions
-		gw.awaitingActions = make([]chan IAction, 0)
+	for {
+		for i := range gw.waiting {
+			if len(gw.waiting[i]) == 0 {
+				return
+			}
+		}
+		consumed := make([]parallelArrival, 0, len(gw.waiting))
+		for i := range gw.waiting {
+			consumed = append(consumed, gw.waiting[i][0])
+			gw.waiting[i] = gw.waiting[i][1:]
+		}
+		// in order of arrival, as before
+		sort.Slice(consumed, func(i, j int) bool { return consumed[i].seq < consumed[j].seq })
+		awaitingActions := make([]chan IAction, len(consumed))
+		for i := range consumed {
+			awaitingActions[i] = consumed[i].response
+		}
 		sequences := allSequenceFlows(&gw.outgoing)
 		distributeFlows(awaitingActions, sequences)
 	}
@@ -64,9 +113,10 @@ func (gw *parallelGateway) run(ctx context.Context, sender tracing.ISenderHandle
 		select {
 		case msg := <-gw.mch:
 			switch m := msg.(type) {
-			case nextActionMessage:
-				gw.reportedIncomingFlows++
-				gw.awaitingActions = append(gw.awaitingActions, m.response)
+			case parallelNextActionMessage:
+				slot := gw.slot(m.incoming)
+				gw.arrivals++
+				gw.waiting[slot] = append(gw.waiting[slot], parallelArrival{response: m.response, seq: gw.arrivals})
 				gw.flowWhenReady()
 				gw.tracer.Send(IncomingFlowProcessedTrace{Node: gw.element, Flow: m.flow})
 			}
@@ -86,7 +136,13 @@ func (gw *parallelGateway) NextAction(ctx context.Context, flow Flow) chan IActi
 	// buffered: exactly one action is ever sent per request, and the flow may
 	// be gone by then (cancellation); the node must not block handing it over
 	response := make(chan IAction, 1)
-	gw.mch <- nextActionMessage{response: response, flow: flow}
+	incoming := ""
+	if sequenceFlow := flow.SequenceFlow(); sequenceFlow != nil {
+		if idPtr, present := sequenceFlow.Id(); present {
+			incoming = *idPtr
+		}
+	}
+	gw.mch <- parallelNextActionMessage{nextActionMessage: nextActionMessage{response: response, flow: flow}, incoming: incoming}
 	return response
 }
 
